@@ -121,11 +121,11 @@ class ObjectNaming(Bounded):
     """within_directory on the real Path objects: the result lies below the directory and distinct (normalised)
     names give distinct results; stripext only strips the extension of the last component."""
     target = 'bfg9000/builtins/path.py::within_directory'
-    properties = ('C05',)
+    properties = ('C05', 'C19')
     reason = 'BasePath.relpath/append/stripext delegate to posixpath (library) and re-normalise: runtime contract only'
 
     def cases(self):
-        return ['injective', 'stripext']
+        return ['injective', 'injective-windows-flavour', 'stripext']
 
     def native_inputs(self, case, alphabet, maxlen, rng, extra=0):
         if case == 'stripext':
@@ -166,11 +166,14 @@ class ObjectNaming(Bounded):
             if got != want:
                 return self.fail(case, raw, 'only_the_extension_of_the_last_component_is_stripped', got=got, expected=want)
             return True
-        d = Path(raw['directory'] + '/')
+        P = Path
+        if case == 'injective-windows-flavour':
+            from bfg9000.platforms.windows import WindowsPath as P      # noqa: N814
+        d = P(raw['directory'] + '/')
         seen = {}
         for n in raw['names']:
             try:
-                p = Path(n)
+                p = P(n)
             except ValueError:
                 continue
             if 'PAR' in p.suffix.split('/'):
